@@ -156,9 +156,9 @@ def insertLeaf (parent : Option Nat) (cur : Leaf) (key lsn : Nat) (value : Bytes
   let cur1 : Leaf := { cur with cells := cur.cells ++ [⟨key, false, value⟩], lsn := lsn }
   putNode (.leaf cur1) (some true)
   if !isFullLeaf cur1 then pure root else
-  -- split: the upper half moves to a new leaf (key and value only)
+  -- split: the upper half moves to a new leaf (key, value and deleted flag)
   let mid := cur1.cells.length / 2
-  let moved := (cur1.cells.drop mid).map fun c => (⟨c.key, false, c.val⟩ : LeafCell)
+  let moved := cur1.cells.drop mid
   let newOff ← appendNode (.leaf ⟨0, 0, false, false, 0, 0, moved⟩) false
   let newKey := (moved.head?.map (·.key)).getD 0
   let cur2 : Leaf := { cur1 with cells := cur1.cells.take mid, hasR := true, rSib := newOff }
@@ -437,6 +437,7 @@ def markDeleted (table : Bytes) (rowId : Nat) : SM (List WalRec) := do
     | .leaf l1 =>
       putNode (.leaf { l1 with cells := l1.cells.map fun x => if x.key == rowId then { x with deleted := true } else x })
       markDirty l.off lsn
+      modifyS fun s => { s with hdr := { s.hdr with nextLSN := s.hdr.nextLSN + 1 } }
       pure [⟨c_OpDelete, lsn, l.off, rowId, []⟩]
 
 /-- `RelationService.Fetch`: row ids and rows in scan order, with the column names -/
